@@ -20,7 +20,8 @@ PORT_NAMES = ['api', 'aux', 'cord', 'led', 'p', 'q2', 'x', 'ap', 'apix', 'le',
 # user texts that end up in comments: plain, multi-line, blank lines, leading whitespace, texts that already
 # look like a comment on their first line only, block-comment terminators, preprocessor lines
 COPYRIGHTS = ['Copyright (c) me', 'Line 1\nLine 2\n', '', '  x  \n\n y', '// (c) me\nint evil();', '  // x\n#define final',
-              '*/ int z; /*', '//', '/* c */\nstruct S {};', '// a\n// b', 'a\rb\x0cc']
+              '*/ int z; /*', '//', '/* c */\nstruct S {};', '// a\n// b', 'a\rb\x0cc',
+              'Copyright \u00a9 2024 Zo\u00eb M\u00fcller', '\u7248\u6743 \u2028 x']
 PREFER_SHORT = False        # spell(): take the shortest uniquely resolving spelling
 
 
@@ -306,7 +307,7 @@ def gen_case(rng, want_mc=None):
            'encapsulee': info['comp_fqn'], 'ports': ports, 'multiclient': mc,
            'origin': rng.choice(['create', 'import']),
            'copyright': rng.choice(COPYRIGHTS),
-           'prefix': rng.choice([None, None, ['Pfx'], ['A', 'B'], ['A_B']]),
+           'prefix': rng.choice([None, None, ['Pfx'], ['A', 'B'], ['A_B'], ['Project'], ['Hal', 'X'], ['B']]),   # incl. ids that also name an inner model namespace
            'creator': rng.choice([None, None, 'ABC\nDEF\n', 'tool v1', '// by\ntool();', ''])}
     return {'op': 'build', 'src': strip_private(elems), 'ast': M.enc_root(strip_private(elems)), 'cfg': cfg,
             'expect': 'ok', '_info': info}
@@ -398,6 +399,11 @@ def faults(rng, case):
         variant('mc-unknown-release', lambda cfg: cfg['multiclient'].__setitem__('release', 'NoRelease'))
         variant('mc-bad-grant', lambda cfg: cfg['multiclient'].__setitem__('grant', ['NotAField']))
         variant('mc-empty-port', lambda cfg: cfg['multiclient'].__setitem__('port', ''))
+        others = [p['name'] for p in info['ports'] if p['dir'] == 'provides' and p['name'] != mc['port']]
+        if others:
+            # mixed provides stay unsupported whether or not a multi-client port is configured
+            variant('mc-mixed-provides-names', lambda cfg: cfg['ports'].__setitem__('psts', {'names': [others[0]]}) or cfg['ports'].__setitem__('pmts', {'w': 'remaining'}))
+            variant('mc-mixed-provides-both-named', lambda cfg: cfg['ports'].__setitem__('psts', {'names': [others[0]]}) or cfg['ports'].__setitem__('pmts', {'names': [mc['port']] + others[1:]}))
         variant('mc-on-sts', lambda cfg: cfg['ports'].__setitem__('psts', {'w': 'all'}) or cfg['ports'].__setitem__('pmts', {'w': 'none'}))
         p0 = next(p for p in info['ports'] if p['name'] == mc['port'])
         itf = next(i for i in info['interfaces'] if i['fq'] == p0['_itf'])
@@ -410,7 +416,21 @@ def faults(rng, case):
             variant('mc-release-is-out-event', lambda cfg: cfg['multiclient'].__setitem__('release', outs[0]['name']))
         # contradictory: one event is to claim and to release
         variant('mc-release-equals-claim', lambda cfg: cfg['multiclient'].__setitem__('release', cfg['multiclient']['claim']))
-    # a formal typed by an enum on an MTS port
+    # a formal whose type is not an extern (an enum / interface name): the build fails LATE, after the Dezyne elements
+    # were put together (only ports that are rerouted look their formal types up)
+    typed = [(i, e, f) for i in info['interfaces'] for e in i['events'] for f in e['formals']]
+    nonext = [d[1] for d in info['decls'] if d[0] in ('enum', 'interface')]
+    if typed and nonext:
+        itf, ev, fm = typed[0]
+
+        def retype_formal(src):
+            el = find_elem(src, lambda e: e['k'] == 'interface' and e['name'] == [itf['fq'][-1]] and
+                           any(x['name'] == ev['name'] for x in e['events']))
+            if el is not None:
+                for x in el['events']:
+                    if x['name'] == ev['name'] and x['formals']:
+                        x['formals'][0]['type'] = list(nonext[0])
+        variant('formal-type-not-an-extern', mut_src=retype_formal, expect='any')
     return out
 
 
